@@ -34,14 +34,44 @@ tables) calls accessor functions of the unit and judges what it observes against
                       dictionary (second oracle).
  (h) VLA parameters   6 parameter forms {a[n][n], (*a)[n], a[][n], a[n], a[n][n+1], a[static n]} x 5 lengths: sizeof, element
                       offsets and a store inside the callee.
+ (i) pointer index    pointer arithmetic as lvalue designator (models/c04_lvalues.py): element types of size 1 (char, void), 2, 3, 4, 8,
+                      16, 24 (thorough adds unsigned/signed char, float, double, pointer, sizes 5, 6, 12) x index operand EXPRESSIONS:
+                      28 kinds {local, global, member, ->member, bit-field, *pointer, array element; i-j, i+j, i*j, i/j, -i, ~i, i&j,
+                      ?:, comma, assignment, op=, ++/-- pre/post, statement expression, compound literal; call result; cast from a
+                      long with dirty upper bits, cast from double; literal} x 9 integer types (signed char .. unsigned long, _Bool)
+                      x every value -4..4 (unsigned: 0..4) supplied by the driver x 15 operator forms {p+n, n+p, p-n, p[n], n[p],
+                      p+=n, p-=n (value and updated pointer), (a+4)[n], &a[4]-n, (p+n)-p, p-(p-n), ++p, p++, --p, p--}.  Judged: the
+                      address (compared before anything is dereferenced), then a marker stored through the lvalue changes exactly
+                      the designated element of a 9-element array between guards, and a load through it yields that element.
+ (j) rhs writes       a store whose right-hand side itself writes to a neighbour of the assigned lvalue: 8 layouts (int, long, char,
+                      short units; ordinary members inside a bit-field's unit; _Bool fields; two units; mixed int/long units; every
+                      struct overlaid by an unsigned long in an anonymous union) x 5 access paths {->, global ., automatic copy, array
+                      element, nested} x all ordered pairs (assigned field X, written neighbour Y) x 41 statement templates in 12
+                      groups {X = Y = v, X = Y = Z = v, X = Y++ / ++Y / Y-- / --Y, X = (Y op= v), X op= (Y = v), X op= Y++,
+                      X = f() / X op= f() where f writes Y (and Z), comma, ?:, &&, two writing operands, statement expression, writes
+                      in the lvalue's own address computation with =, op=, ++, --, whole-struct assignment and a store to the
+                      overlapping union member inside the right-hand side} x 2 initial states x 3 (v, w) pairs.  Judged by a
+                      reference dictionary over ALL fields (interpreter in models/c04_lvalues.py), the value of the expression,
+                      and the guard bytes.
+ (k) object lifetime  compound literals (and, as control, initialised named automatic objects): 18 object types (scalars, pointer, arrays
+                      complete/incomplete/partly initialised/designated/2-D/string, structs plain/nested/with bit-fields/with a string
+                      pointer, union) x initializer classes {all constants, constant expressions, designated, {0}, string, non-constant
+                      first/last element} x 6 evaluation scenarios {for loop, goto loop, ?:-arm in a loop, callee called three times,
+                      recursion of depth 3 with all activations live, two evaluations live in one block} x 5 spellings {T *p = literal,
+                      assigned later, passed as argument, named object, modified through the literal's own lvalue}; plus file-scope
+                      literals, which are ONE static object whose stored values persist across calls.  Judged: every evaluation
+                      yields the initializer's values although the previous object was overwritten, live objects are disjoint from
+                      each other and from named locals and keep their contents.  Every function runs twice.
+ Families (i)-(k), like (g)/(h), report a deviation only if gcc -O0 on the same unit satisfies the dictionary.
 
 Nothing is compared with gcc's layout (that is C08); gcc only compiles the driver.
 """
 import os, re, itertools
 from vlib import core, twin
+from models import c04_lvalues as LV
 
 LEVEL = "exploration"
-BUDGET = {"quick": 300, "thorough": 1500}
+BUDGET = {"quick": 900, "thorough": 3000}      # global deadlines, not targets (quick: ~2.5 CPU-min; the machine is shared)
 
 HDR = os.path.join(core.VERIF, "harness/c04_drv.h")
 TYPES = ["_Bool", "char", "short", "int", "long", "unsigned char", "unsigned short", "unsigned int", "unsigned long"]
@@ -368,7 +398,9 @@ CB_DECL = ("long c04_reg(void *, long, long, long); long c04_verify(void); long 
            "long c04_id(long); long c04_val(long, long, long, unsigned long); long c04_wrote(long, long, long, unsigned long); long c04_same(void *, void *, long, long);\n"
            "long c04_zero(void *, long, long); long c04_wrote_ld(long); long c04_path(long, void *); long c04_add3(long, long, long); void *alloca(unsigned long);\n"
            "long c04_cpy(void *, void *, long); long c04_vla(void *, long, long, long); long c04_expect(long, long, long);\n"
-           "long c04_stored(void *, long, long, unsigned long); void *c04_buf(void);\n")
+           "long c04_stored(void *, long, long, unsigned long); void *c04_buf(void);\n"
+           "long c04_pxv(long, long); long c04_mk(void *, long); long c04_at(void *, void *, long, long, long, long); long c04_marked(long, long, long, long, long);\n"
+           "long c04_rd(void *, long, long, long, long, long); long c04_pd(long, long, long);\n")
 
 
 def copy_build(cases):
@@ -873,12 +905,21 @@ def pi_unit_one(i, c):
     return unit, "{5, 6, 0, {%s}}" % ",".join(str(b) for b in (setb + [0]))
 
 
-FAMILIES = {"bf": bf_build, "cp": copy_build, "pa": path_build, "lo": simple_build("d", local_unit_one, "locals"),
+def px_unit_row(i, c):
+    return LV.px_unit_one(i, c), LV.px_row(c)
+
+
+def bn_build(cases):
+    return LV.bn_build(cases, HDR)
+
+
+FAMILIES = {"px": simple_build("x", px_unit_row, "ptr-index"), "bn": bn_build, "cl": simple_build("k", LV.cl_unit_one, "literal"),
+            "bf": bf_build, "cp": copy_build, "pa": path_build, "lo": simple_build("d", local_unit_one, "locals"),
             "va": simple_build("v", va_unit_one, "vla-alloca"), "pi": simple_build("z", pi_unit_one, "partial-init"),
             "vt": simple_build("w", vt_unit_one, "vla", "call_rounds = 4;"), "vp": simple_build("q", vp_unit_one, "vla", "call_rounds = 4;")}
 WEIGHT = {"cp": copy_weight}
-REF_FAMS = ("vt", "vp")      # families whose verdicts are cross-checked against gcc -O0 on the same unit
-BATCH = {"bf": 320, "cp": 300, "pa": 24, "lo": 400, "va": 130, "pi": 100, "vt": 120, "vp": 30}
+REF_FAMS = ("vt", "vp", "px", "bn", "cl")      # families whose verdicts are cross-checked against gcc -O0 on the same unit
+BATCH = {"bf": 320, "cp": 300, "pa": 24, "lo": 400, "va": 130, "pi": 100, "vt": 120, "vp": 30, "px": 60, "bn": 10, "cl": 80}
 
 
 # ---------------------------------------------------------------------------------------------- batch runner
@@ -1066,8 +1107,9 @@ def run_family(ctx, fam, cases, stats):
 def run(ctx):
     stats = {"evals": 0, "skipped": 0, "cases": 0, "judged_cases": 0, "rejected": 0, "oracle_disagreements": 0}
     # small families first: if the deadline stops the run, only the tail of the big bit-field enumeration is missing
-    fams = [("cp", copy_cases(ctx.tier)), ("pa", path_cases(ctx.tier)), ("lo", local_cases(ctx.tier)),
-            ("va", va_cases(ctx.tier)), ("vt", vt_cases(ctx.tier)), ("vp", vp_cases(ctx.tier)), ("pi", pi_cases(ctx.tier)), ("bf", bf_cases(ctx.tier))]
+    fams = [("vp", vp_cases(ctx.tier)), ("bn", LV.bn_cases(ctx.tier)), ("cl", LV.cl_cases(ctx.tier)), ("va", va_cases(ctx.tier)),
+            ("pi", pi_cases(ctx.tier)), ("px", LV.px_cases(ctx.tier)), ("lo", local_cases(ctx.tier)), ("pa", path_cases(ctx.tier)),
+            ("vt", vt_cases(ctx.tier)), ("cp", copy_cases(ctx.tier)), ("bf", bf_cases(ctx.tier))]
     only = os.environ.get("C04_ONLY")
     for fam, cases in fams:
         if only and fam not in only.split(","):
@@ -1091,9 +1133,14 @@ def run(ctx):
                      "(d) all multisets of 1..4 locals from 13 kinds%s, both stack parities mod 32. (e) 4 kinds x 13 contexts x 13 sizes 0..4096. (f) 10 forms x the sizes of (b). "
                      "(g) 8 spellings of a VLA type (5 typedefs, typeof(object), typeof(type), written out) x 4 uses (declare objects, sizeof(type), pointer to it, array of it) x 13 control flows "
                      "(straight, then/else arm, 3 switch positions, goto around, goto back, alternating loop, loop re-establishing the type with a new n, ?: arms, &&, n changed afterwards) x lengths %s, "
-                     "each on zeroed and patterned stacks at both parities, gcc -O0 on the same unit as second oracle. (h) 6 VLA parameter forms x 5 lengths."
+                     "each on zeroed and patterned stacks at both parities, gcc -O0 on the same unit as second oracle. (h) 6 VLA parameter forms x 5 lengths. "
+                     "(i) pointer arithmetic: element types %s x 28 index operand kinds x 9 integer operand types x values -4..4 x 15 operator forms; address, store of a marker, load. "
+                     "(j) stores whose right-hand side writes a neighbour: 8 layouts x 5 access paths x ordered field pairs x %d statement templates (groups %s) x 2 initial states x 3 value pairs; dictionary over all fields. "
+                     "(k) object lifetime of compound literals: %d object types x initializer classes x scenarios %s x spellings %s + file-scope literals; gcc -O0 second oracle for (i)-(k)."
                      % ("4 preceding widths x 13+ field widths" if ctx.tier == "quick" else "all 64 preceding widths x all widths", str(copy_sizes(ctx.tier)).replace(" ", ""), "" if ctx.tier == "quick" else " in both declaration orders",
-                        str(VT_SIZES if ctx.tier == "quick" else VT_SIZES_THOROUGH).replace(" ", "")))
+                        str(VT_SIZES if ctx.tier == "quick" else VT_SIZES_THOROUGH).replace(" ", ""),
+                        ",".join(LV.PX_ELEMS_QUICK if ctx.tier == "quick" else LV.PX_ELEMS), len(LV.BN_TEMPLATES), ",".join(LV.BN_GROUPS),
+                        len(LV.CL_SPECS), ",".join(LV.CL_SCEN), ",".join(LV.CL_SPELL)))
     for k, v in stats.items():
         if k.startswith("fam_"):
             ctx.cover(**{"cases_" + k[4:]: v})
@@ -1108,4 +1155,6 @@ def run(ctx):
                "typeof and statement expressions (GNU C, implemented by chibicc and gcc alike) are used to spell some cases")
     ctx.assume("arrays and VLAs of >= 16 bytes and alloca blocks are 16-byte aligned (x86-64 psABI 3.1.2)")
     ctx.assume("padding bits/bytes and the inactive members of a union are not judged after a store (6.2.6.1p6-7); the differential discovery of a field's bit set assumes the all-ones/zero stores themselves leave padding alone")
+    ctx.assume("side effects on distinct bit-fields of one storage unit that are unsequenced relative to each other are both performed (6.5p2 speaks of the same scalar object only); "
+               "a block-scope compound literal is initialised each time it is evaluated and has one instance per activation of its block (6.5.2.5p5, 6.8p3); a file-scope one is static")
     ctx.assume("the assembler, linker, gcc-compiled driver and CPU are trusted; layout agreement with gcc is property C08, not judged here")
